@@ -52,7 +52,7 @@ Definition qlen {A} (l : list A) : Q := inject_Z (zlen l).
 
 Definition sum_sq (l : list Q) : Q := qsum (map sqr l).
 Definition mean (l : list Q) : Q := Qred (qsum l / qlen l).
-Definition dev (l : list Q) : list Q := let m := mean l in map (fun x => x - m) l.
+Definition dev (l : list Q) : list Q := let m := mean l in map (fun x => Qred (x - m)) l.
 (* Series.var(ddof=0): mean squared deviation from the mean *)
 Definition variance (l : list Q) : Q := Qred (sum_sq (dev l) / qlen l).
 Definition sum_abs (l : list Q) : Q := qsum (map Qabs l).
@@ -166,6 +166,8 @@ Definition column (l : list Q) : colstats :=
   {| c_sum := qsum l; c_mean := m; c_var := v; c_sum_sq := sum_sq l; c_median := median l;
      c_mad := mad l; c_iqr := iqr l; c_std := Root false v; c_cvstd := root_div v m |}.
 
+(* (exact sums of quotients over many different denominators are huge: the correspondence evaluates
+   this with every term truncated to 2^-80, see MetricsRun.mape_trunc) *)
 Definition mape_of (d : list (Q * Q)) (mn : Q) : val :=
   let nz := filter (fun r => Qle_bool mn (Qabs (fst r))) d in
   match nz with
@@ -193,7 +195,7 @@ Record bmetrics := {
   b_nmae : val; b_pnmae : val; b_nmbe : val; b_pnmbe : val;
   b_rmse : val; b_rmse_adj : val;
   b_cvrmse : val; b_cvrmse_adj : val; b_pnrmse : val; b_pnrmse_adj : val;
-  b_r2 : option Q; b_r_squared : val; b_r_squared_adj : val; b_mape : val
+  b_r2 : option Q; b_r_squared : val; b_r_squared_adj : val
 }.
 
 (* [d] : the finite (observed, predicted) pairs, not empty; [p] = num_model_params; [mn] = _min_denominator *)
@@ -221,7 +223,7 @@ Definition baseline (d : list (Q * Q)) (p : Z) (mn : Q) : bmetrics :=
      b_cvrmse := safe_divide_root mse mo mn; b_cvrmse_adj := safe_divide_root msa mo mn;
      b_pnrmse := safe_divide_root mse io mn; b_pnrmse_adj := safe_divide_root msa io mn;
      b_r2 := r2; b_r_squared := match r2 with Some r => Num r | None => NaN end;
-     b_r_squared_adj := r_squared_adj_of r2 n ddof mn; b_mape := mape_of d mn |}.
+     b_r_squared_adj := r_squared_adj_of r2 n ddof mn |}.
 
 (* the statistics downstream of n' (given as a rational witness, validated by [nprime_exact]) *)
 Definition rmse_autocorr_adj_sq (m : bmetrics) (np : Q) (p : Z) : Q := Qred (b_sse m / ddof_autocorr_of np p).
